@@ -15,3 +15,6 @@ pub use emf::{
     HighStorageResolutionCtor, MetricDefinition, MetricDirective, NoMetric, NoMetricCtor,
     SampledEmf, StorageResolution,
 };
+#[cfg(metrique_verif)]
+#[doc(hidden)]
+pub use emf::{__verif_rate_to_n, __verif_rate_to_n_alpha};
